@@ -11,3 +11,64 @@ Definition layouts_as_modelled : Prop :=
 
 Lemma layouts_ok : layouts_as_modelled.
 Proof. repeat split. Qed.
+
+(* ---- pinned call signatures ---------------------------------------------------------------------------------
+   Gen/GenSigC14.v holds inspect.signature of the public entry points of the anchored code on the current tree.  A call
+   written against the pinned signature (positionally in this order, by these keywords, or relying on these defaults)
+   must still bind the same way: the current signature has to START with the pinned parameters, names and defaults
+   unchanged, and anything added after them must have a default. *)
+From Coq Require Import List Bool Strings.Byte.
+From PV Require Import Gen.GenSigC14 Base.Outcome Model.BlockCall.
+Import ListNotations.
+Local Open Scope string_scope.
+
+Definition pinned_sigs : list (string * list (string * string)) := [
+  ("Block", [("version", ""); ("previous_block_hash", ""); ("merkle_root", ""); ("timestamp", ""); ("difficulty", ""); ("nonce", "")]);
+  ("Block.parse", [("f", ""); ("include_transactions", "True"); ("include_offsets", "None"); ("check_merkle_hash", "True")]);
+  ("BTC.block.parse", [("f", ""); ("include_transactions", "True"); ("include_offsets", "None"); ("check_merkle_hash", "True")]);
+  ("LTC.block.parse", [("f", ""); ("include_transactions", "True"); ("include_offsets", "None"); ("check_merkle_hash", "True")]);
+  ("Block.parse_as_header", [("f", "")]);
+  ("Block.from_bin", [("bytes", "")]);
+  ("Block.set_nonce", [("nonce", "")]);
+  ("Block.set_txs", [("txs", ""); ("check_merkle_hash", "True")]);
+  ("Block.hash", []); ("Block.id", []); ("Block.previous_block_id", []);
+  ("Block.stream", [("f", "")]); ("Block.stream_header", [("f", "")]);
+  ("Block.as_bin", []); ("Block.as_hex", []); ("Block.check_merkle_hash", []); ("Block.as_blockheader", []);
+  ("merkle", [("hashes", ""); ("hash_f", "fn:double_sha256")]);
+  ("merkle_pair", [("hashes", ""); ("hash_f", "")]);
+  ("LTC.tx.parse", [("f", "")]);
+  ("BTC.message.parse", [("message_name", ""); ("data", "")]) ].
+
+Fixpoint sig_compat (pinned cur : list (string * string)) : bool :=
+  match pinned, cur with
+  | [], rest => forallb (fun '(_, d) => negb (String.eqb d "")) rest
+  | (n, d) :: p', (n', d') :: c' => String.eqb n n' && String.eqb d d' && sig_compat p' c'
+  | _ :: _, [] => false
+  end.
+
+Fixpoint lookup_sig (name : string) (t : list (string * list (string * string))) : option (list (string * string)) :=
+  match t with
+  | [] => None
+  | (n, s) :: r => if String.eqb n name then Some s else lookup_sig name r
+  end.
+
+Definition signatures_compatible : bool :=
+  forallb (fun '(n, p) => match lookup_sig n sigs with Some c => sig_compat p c | None => false end) pinned_sigs.
+
+Lemma signatures_ok : signatures_compatible = true.
+Proof. vm_compute. reflexivity. Qed.
+
+(* the binder of Model/BlockCall.v is written for exactly the pinned Block.parse parameters after the stream *)
+Definition show_default (d : option pyval) : string :=
+  match d with
+  | None => ""
+  | Some VNone => "None"
+  | Some (VBool true) => "True"
+  | Some (VBool false) => "False"
+  | Some (VInt _) => "int"
+  end.
+
+Lemma model_signature_is_pinned :
+  Some (("f", "") :: map (fun '(n, d) => (string_of_list_byte n, show_default d)) block_parse_sig)
+  = lookup_sig "Block.parse" pinned_sigs.
+Proof. vm_compute. reflexivity. Qed.
